@@ -374,7 +374,9 @@ impl<H: Hal, const SIZE: usize> VirtQueue<H, SIZE> {
             // SAFETY: `self.used` points to a valid, aligned, initialised, dereferenceable, readable
             // instance of `UsedRing`.
             let avail_event = unsafe { (*self.used.as_ptr()).avail_event.load(Ordering::Acquire) };
-            self.avail_idx >= avail_event.wrapping_add(1)
+            // The indices are free-running 16-bit counters, so compare them modulo 2^16: notify if
+            // `avail_event` is behind `avail_idx` (by less than half the index space).
+            self.avail_idx.wrapping_sub(avail_event).wrapping_sub(1) < 0x8000
         } else {
             #[cfg(virtio_drivers_verif)]
             crate::verif::dma(crate::verif::DmaAccess::LoadUsedFlags, self.queue_idx);
